@@ -6,21 +6,85 @@ An exception that escapes a harness is not allowed to end a check with a bare tr
     something the correspondence harness has never seen on the unchanged tree) → the correspondence is
     broken: the harness could not finish its failing-input search, so per DESIGN 1.3 step 6 this is
     `VIOLATION property=Cxx replay=<file> no-failing-input-found` (the replay file holds the traceback).
+  * watchdog: a check whose harness never blocks on the unchanged tree (quick: well under a minute,
+    thorough: minutes) but does not terminate within VERIF_WATCHDOG_QUICK / VERIF_WATCHDOG_THOROUGH
+    seconds (default 900 / 5400) is stuck in the implementation (a leaked lock, a loop that no longer
+    ends) on some generated input the harness could not isolate: the correspondence could not be
+    established, same verdict `… no-failing-input-found` with the stacks of all threads in the replay
+    file.  Stuck while the Lean gate (lake build, waiting for the build lock) is running → INFRA-ERROR.
 """
 import importlib
 import json
 import os
+import signal
 import sys
+import threading
+import time
 import traceback
 
 HARNESS = os.path.dirname(os.path.abspath(__file__))
 sys.path.insert(0, HARNESS)
 
 
+def _descendants(root):
+    kids = {}
+    for d in os.listdir('/proc'):
+        if d.isdigit():
+            try:
+                with open('/proc/%s/stat' % d) as f:
+                    st = f.read()
+                ppid = int(st[st.rindex(')') + 2:].split()[1])
+                kids.setdefault(ppid, []).append(int(d))
+            except Exception:
+                pass
+    out, todo = [], [root]
+    while todo:
+        for k in kids.get(todo.pop(), []):
+            out.append(k)
+            todo.append(k)
+    return out
+
+
+def _watchdog(pid, tier, limit, common):
+    time.sleep(limit)
+    stacks = []
+    for tid, fr in sys._current_frames().items():
+        stacks.append('thread %s:\n%s' % (tid, ''.join(traceback.format_stack(fr))[-3000:]))
+    in_gate = any('lean_gate' in s or 'LakeLock' in s for s in stacks)
+    kids = _descendants(os.getpid())
+    if in_gate:
+        print('INFRA-ERROR check %s %s did not finish its Lean gate within %d s' % (pid, tier, limit))
+        code = 2
+    else:
+        os.makedirs(os.path.join(common.OUT, 'replay'), exist_ok=True)
+        path = os.path.join(common.OUT, 'replay', '%s-watchdog.json' % pid)
+        with open(path, 'w') as f:
+            json.dump(dict(property=pid, kind='no-failing-input-found', signature='check-did-not-terminate',
+                           what='the %s check did not terminate within %d s (it takes seconds to minutes on the '
+                                'unchanged tree): the implementation blocks or loops on a generated input (for '
+                                'example a lock that is no longer released) and the correspondence between model '
+                                'and implementation could not be established' % (tier, limit),
+                           stacks=stacks, worker_processes=len(kids), argv=sys.argv[1:],
+                           seed=os.environ.get('VERIF_SEED', '0')), f, indent=1)
+        print('VIOLATION property=%s replay=%s no-failing-input-found' % (pid, path))
+        code = 1
+    sys.stdout.flush()
+    for k in kids:
+        try:
+            os.kill(k, signal.SIGKILL)
+        except OSError:
+            pass
+    os._exit(code)
+
+
 def main():
     pid = sys.argv[1]
     sys.argv = [os.path.join(HARNESS, pid.lower() + '.py')] + sys.argv[2:]
     import common
+    tier = 'thorough' if 'thorough' in sys.argv else 'quick'
+    limit = int(os.environ.get('VERIF_WATCHDOG_' + tier.upper(), '5400' if tier == 'thorough' else '900'))
+    if limit > 0:
+        threading.Thread(target=_watchdog, args=(pid, tier, limit, common), daemon=True).start()
     try:
         mod = importlib.import_module(pid.lower())
         mod.main()
